@@ -374,7 +374,8 @@ class NewObjectGuard:
         roots = [hx(r) for r in s.pre_objs]
         exists = rel in s.pre_tree or os.path.lexists(os.path.join(s.sb.root, rel)) if s.res["rc"] != 0 else False
         # expected answer of the model given what the implementation did
-        changed = {k: v for k, v in s.post_tree.items()} != {k: v for k, v in s.pre_tree.items()}
+        # the `extensions` directory is the parent of the internal staging area and is created with it
+        changed = {k: v for k, v in s.post_tree.items() if k != "extensions"} != {k: v for k, v in s.pre_tree.items() if k != "extensions"}
         if s.res["rc"] == 0:
             want = "ok safe"
         else:
